@@ -14,6 +14,8 @@ import SplinkVerif.Drv.Serialise
 import SplinkVerif.Drv.Creators
 import SplinkVerif.Drv.Entry
 import SplinkVerif.Drv.OneToOne
+import SplinkVerif.Drv.Tables
+import SplinkVerif.Drv.Levels
 /-! Line-protocol driver: one JSON object per input line, one JSON object per output line. -/
 open Lean SplinkVerif.Drv
 
@@ -42,6 +44,9 @@ def dispatch (j : Json) : Except String Json := do
   | "entry" => handleEntry j
   | "sbl" => handleSBL j
   | "sbl_all" => handleSBLAll j
+  | "tables_trace" => handleTablesTrace j
+  | "levels_sat" => handleLevelsSat j
+  | "levels_metric" => handleLevelsMetric j
   | "ping" => pure (Json.mkObj [("pong", Json.bool true)])
   | _ => throw s!"unknown op {op}"
 
